@@ -181,4 +181,12 @@ reports (3 each; 1 trend each) -/
 example : Hamlet.runWindows [[⟨0, false⟩, ⟨1, true⟩]] 2 [[0, 1], [1, 1, 0, 1]] =
     ([(1, 0, 1), (5, 0, 1)], [(0, 0, 3), (1, 0, 3)]) := by decide
 
+/-- `hamlet_partial` over several windows of one reused aggregator: no event of the query's first
+type in any window — no report in any window, and no window contains a trend. -/
+theorem hamlet_partial_windows (s : Step) (ss : Query) (hq : WF (s :: ss)) (m : Nat) (hm : 2 ≤ m)
+    (wins : List (List Ty)) (h : ∀ w ∈ wins, ∀ t ∈ w, t ≠ s.ty) :
+    Hamlet.runWindows [s :: ss] m wins = ([], []) ∧ ∀ w ∈ wins, Spec.count (s :: ss) w = 0 :=
+  ⟨Hamlet.runWindows_no_start s ss m hm wins h,
+   fun w hw => (hamlet_partial s ss hq m hm w (h w hw)).2⟩
+
 end Varpulis.Props.C25
